@@ -382,6 +382,9 @@ func (c *fc) genCall(site ssa.CallInstruction) {
 func (c *fc) bindCall(site ssa.CallInstruction, callee *ssa.Function, args []ssa.Value) {
 	a := c.a
 	name := callee.String()
+	if o := callee.Origin(); o != nil {
+		name = o.String() // instantiation of a generic function: summaries are keyed by the generic
+	}
 	if s, ok := summaries[name]; ok {
 		a.ExtCalls[name]++
 		s(c, site, callee, args)
